@@ -85,11 +85,20 @@ func c20ConnDuplex(c *Ctx) {
 					defer wwg.Done()
 					rr := mon.NewRNG(uint64(run*1000 + ei*100 + wtr))
 					for s := 0; s < perWriter; s++ {
-						n := rr.Pick(0, 1, 50, 1000, 5000, 16377, 16378, 20000, 40000) // incl. messages that span several records: one Write is one unit
+						// incl. messages that span several records, and (one writer in two, rarely) messages larger than 64 KiB:
+						// one Write is one unit however long it is
+						n := rr.Pick(0, 1, 50, 1000, 5000, 16377, 16378, 20000, 40000)
+						if wtr%2 == 0 && s%5 == 2 {
+							n = []int{70016, 262144, 131072 + 64}[(s/5+wtr)%3]
+						}
 						m := make([]byte, 7+n)
 						m[0] = byte(wtr)
 						binary.BigEndian.PutUint32(m[1:], uint32(s))
 						binary.BigEndian.PutUint16(m[5:], uint16(n))
+						if n > 65535 { // long form: the length field counts units of 64 bytes
+							m[0] |= 0x80
+							binary.BigEndian.PutUint16(m[5:], uint16(n/64))
+						}
 						for i := 7; i < len(m); i++ {
 							m[i] = byte(ei*7 + wtr*31 + s)
 						}
@@ -122,8 +131,11 @@ func c20ConnDuplex(c *Ctx) {
 						e.readErr = err
 						return
 					}
-					wtr, seq, n := int(hdr[0]), int(binary.BigEndian.Uint32(hdr[1:])), int(binary.BigEndian.Uint16(hdr[5:]))
-					if wtr >= W || n > 40000 {
+					wtr, seq, n := int(hdr[0]&0x7f), int(binary.BigEndian.Uint32(hdr[1:])), int(binary.BigEndian.Uint16(hdr[5:]))
+					if hdr[0]&0x80 != 0 {
+						n *= 64
+					}
+					if wtr >= W || (n > 40000 && hdr[0]&0x80 == 0) || n > 262144 {
 						e.bad = fmt.Sprintf("garbled message header %x", hdr)
 						return
 					}
